@@ -20,7 +20,7 @@ O2m  == S("O2-",  <<<<0, -1>>, <<8, 2>>>>)
 Pool4 == <<H2O, Hp, OHm, El>>
 Pool5 == <<Hp, OHm, H2O, Hat, El>>
 Pool6 == <<H2O, Hp, OHm, Hat, El, H2>>
-Pool7 == <<H2O2, Hp, OHm, H2O, El, Hat, O2m>>
+Pool7 == <<OH, Hp, OHm, H2O, El, Hat, H2>>
 PoolRad == <<Hat, OH, H2O, H2, H2O2>>
 PoolRad6 == <<Hat, OH, H2O, H2, H2O2, O2, HO2>>
 
@@ -48,9 +48,15 @@ Box(n, hi) == [1..n -> 0..hi]
 St5 == Box(5, 2)
 St5b == { v \in Box(5, 3) : VSum(v) \in 2..6 /\ VSum(v) % 2 = 0 }
 St4 == Box(4, 2)
+St6 == { v \in Box(6, 2) : VSum(v) \in 2..3 }
 St5q == Box(5, 1) \cup {<<3, 0, 1, 2, 0>>, <<0, 3, 2, 1, 1>>, <<2, 2, 0, 0, 3>>, <<1, 0, 3, 0, 2>>}
 StRad == { v \in Box(5, 3) : VSum(v) \in 1..5 }
-StRad7 == { v \in Box(7, 2) : VSum(v) \in 2..3 }
+StRadQ == {<<1, 1, 1, 1, 1>>, <<2, 0, 1, 0, 3>>, <<0, 3, 0, 2, 1>>, <<3, 2, 1, 0, 0>>, <<0, 0, 2, 1, 2>>, <<1, 2, 0, 3, 0>>}
+StRadB == {<<2, 1, 1, 1, 2>>, <<3, 2, 0, 1, 0>>, <<0, 1, 3, 2, 1>>}
+StRadT == { v \in Box(5, 3) : VSum(v) = 3 } \cup {<<2, 1, 0, 1, 1>>, <<0, 2, 2, 1, 0>>, <<3, 0, 1, 0, 2>>, <<1, 1, 1, 1, 1>>}
+StRad6T == { v \in Box(7, 2) : VSum(v) = 2 } \cup {<<1, 1, 1, 1, 1, 1, 1>>, <<2, 0, 1, 0, 1, 2, 0>>, <<0, 2, 0, 1, 0, 1, 2>>}
+StRad6B == {<<1, 1, 1, 1, 1, 1, 1>>, <<2, 0, 1, 0, 1, 2, 0>>, <<0, 2, 0, 1, 0, 1, 2>>, <<3, 1, 0, 2, 2, 0, 1>>}
+StIso4a == {<<3, 0, 1, 2>>}
 StNO3 == {<<3, 1, 2>>, <<0, 0, 4>>, <<1, 0, 0>>}
 StNO4 == {<<3, 2, 0, 1>>, <<0, 4, 0, 0>>}
 StIso3 == {<<3, 1, 0>>, <<0, 0, 2>>}
@@ -63,7 +69,8 @@ DecNarrow == {-1, 0, 1}
 DecWide == {-3, 0, 3}
 DecMid == {-2, 0, 2}
 DecTwo == {-2, 2}
+DecZero == {0}
 Cap1 == <<1, 1>>
 TimesA == <<<<1, 100>>, <<1, 10>>, <<1, 1>>, <<5, 1>>>>
-TolA == [atol |-> <<1, 1000000000>>, rtol |-> <<1, 1000000000>>, guard |-> 5000]
+TolA == [atol |-> <<1, 1000000000>>, rtol |-> <<1, 1000000000>>, guard |-> 200, steprtol |-> <<1, 1000000000>>]
 =============================================================================
